@@ -31,12 +31,16 @@ impl Op {
     }
 }
 
-struct Nop;
-impl Wake for Nop {
-    fn wake(self: Arc<Self>) {}
+/// The receiver's waker: counts how often it is invoked.
+struct Counting(std::sync::atomic::AtomicU64);
+impl Wake for Counting {
+    fn wake(self: Arc<Self>) {
+        self.0.fetch_add(1, std::sync::atomic::Ordering::SeqCst);
+    }
 }
 
-fn run_impl(n: usize, ops: &[Op]) -> Vec<String> {
+/// Per operation: its result and whether the receiver's waker was invoked during it.
+fn run_impl(n: usize, ops: &[Op]) -> (Vec<String>, Vec<bool>) {
     let (mut voters, mut rx): (Vec<Option<Voter>>, Receiver) = if n == 2 {
         let (a, b, r) = downlink_timeout_coordinator();
         (vec![Some(a), Some(b)], r)
@@ -44,8 +48,11 @@ fn run_impl(n: usize, ops: &[Op]) -> Vec<String> {
         let (a, b, c, r) = agent_timeout_coordinator();
         (vec![Some(a), Some(b), Some(c)], r)
     };
-    let waker = Waker::from(Arc::new(Nop));
+    let counter = Arc::new(Counting(Default::default()));
+    let waker = Waker::from(counter.clone());
     let mut cx = Context::from_waker(&waker);
+    let mut wakes = vec![];
+    let mut seen = 0u64;
     let res = |r: VoteResult| match r {
         VoteResult::Unanimous => "RVote Unanimous".to_string(),
         VoteResult::UnanimityPending => "RVote UnanimityPending".to_string(),
@@ -74,8 +81,11 @@ fn run_impl(n: usize, ops: &[Op]) -> Vec<String> {
             },
         };
         outs.push(o);
+        let now = counter.0.load(std::sync::atomic::Ordering::SeqCst);
+        wakes.push(now != seen);
+        seen = now;
     }
-    outs
+    (outs, wakes)
 }
 
 fn all_ops(n: usize) -> Vec<Op> {
@@ -92,9 +102,9 @@ fn main() {
     let args = parse_args();
     let mut rng = Rng::new(args.seed);
     let mut w = CaseWriter::new(
-        "From SwimV Require Import Model.Voter.",
-        "case",
-        &["corr_bad", "oracle_bad"],
+        "From SwimV Require Import Model.VoterWake.",
+        "wcase",
+        &["wcorr_bad", "woracle_bad", "wake_corr_bad", "wake_oracle_bad"],
         args.shards,
     );
     let mut kinds: BTreeMap<String, u64> = BTreeMap::new();
@@ -104,14 +114,18 @@ fn main() {
     let mut samples = vec![];
 
     let mut emit = |n: usize, ops: &[Op], w: &mut CaseWriter| {
-        let outs = run_impl(n, ops);
+        let (outs, wakes) = run_impl(n, ops);
         let term = format!(
-            "({}%nat, {}, {})",
+            "({}%nat, {}, {}, {})",
             n,
             coq_list(ops.iter().map(|o| o.coq())),
-            coq_list(outs.iter().cloned())
+            coq_list(outs.iter().cloned()),
+            coq_list(wakes.iter().map(|b| b.to_string()))
         );
-        let human = format!("n={} ops={:?} impl={:?}", n, ops, outs);
+        let human = format!("n={} ops={:?} impl={:?} wakes={:?}", n, ops, outs, wakes);
+        if wakes.iter().any(|b| *b) {
+            *kinds.entry("lists_with_a_wake".into()).or_default() += 1;
+        }
         for o in ops {
             let k = match o {
                 Op::Vote(_) => "vote",
@@ -143,6 +157,11 @@ fn main() {
         (3, vec![Op::Vote(0), Op::Rescind(0), Op::Drop(0), Op::Vote(1), Op::Vote(2), Op::Poll]),
         (3, vec![Op::Vote(0), Op::Vote(1), Op::Vote(2), Op::Rescind(1), Op::Poll]),
         (3, vec![Op::Vote(0), Op::Rescind(0), Op::Rescind(0), Op::Vote(1), Op::Vote(2), Op::Rescind(0), Op::Poll]),
+        // the receiver is parked; the last missing vote comes from a voter that is dropped
+        (2, vec![Op::Poll, Op::Vote(0), Op::Drop(1), Op::Poll]),
+        (2, vec![Op::Vote(0), Op::Poll, Op::Vote(1), Op::Poll]),
+        (3, vec![Op::Vote(0), Op::Poll, Op::Vote(1), Op::Vote(2), Op::Rescind(2), Op::Drop(2)]),
+        (3, vec![Op::Poll, Op::Vote(0), Op::Vote(1), Op::Rescind(1), Op::Drop(1), Op::Poll, Op::Drop(2), Op::Poll]),
     ];
     for (n, ops) in &corpus {
         emit(*n, ops, &mut w);
@@ -204,7 +223,7 @@ fn main() {
         ("distinct_nontrivial", J::I(nontrivial as i128)),
         ("exhaustive_lists", J::I(exhaustive_count as i128)),
         ("exhaustive_depth", J::I(depth as i128)),
-        ("rule", J::s("corpus, then every op list over {vote i, rescind i, drop i, poll} to the depth bound for 2 and 3 parties (depth+1 for 2), then random lists of length 5..40; non-trivial = contains a rescind by a party after a vote by that party; distinct by (n, op list)")),
+        ("rule", J::s("corpus, then every op list over {vote i, rescind i, drop i, poll} to the depth bound for 2 and 3 parties (depth+1 for 2), then random lists of length 5..40; the receiver is polled with a counting waker and per operation it is recorded whether that waker was invoked; non-trivial = contains a rescind by a party after a vote by that party; distinct by (n, op list)")),
         ("op_kinds", J::counts(&kinds)),
         ("lengths", J::counts(&lens)),
         ("samples", J::A(samples)),
